@@ -105,10 +105,12 @@ def run_many(scns: list[dict], par: int = 14, chunk: int = 4, repo: str | None =
 
 # ---------------------------------------------------------------- generators
 
-def S(outcome, n=0, clog=False, init=False, signal=None, dur=0.0, timeout=None, **spec):
+def S(outcome, n=0, clog=False, init=False, signal=None, dur=0.0, timeout=None, awaiters=None, **spec):
     sp = {'outcome': outcome, 'n': n, 'dur': dur}
     sp.update(spec)
     d = {'spec': sp, 'collect_logging': clog, 'initializer': init, 'signal': signal}
+    if awaiters:
+        d['awaiters'] = awaiters
     if timeout:
         d['timeout'] = timeout
     return d
@@ -214,6 +216,21 @@ def linger_family(rng, n):
     return out
 
 
+def storm_family(rng, reps=1):
+    """many awaiters of the same handle: a new task awaits it in every loop iteration while the function runs and the
+    process exits, one when the process sentinel fires, some right after the first result, one much later"""
+    out = []
+    for r in range(reps):
+        clog, init = CFGS[r % 4] if reps > 1 else (False, False)
+        out.append(S('return', 5, clog, init, None, dur=0.01, awaiters='storm'))
+        out.append(S('raise', 5, not clog, init, None, dur=0.01, awaiters='storm', exc=rng.choice(['worker', 'aio_cancelled', 'kbint'])))
+        out.append(S('block', 5, clog, init, sig(rng.choice(['kill', 'terminate']), 'running', 0.0), awaiters='storm'))
+        if reps > 1:
+            out.append(S('block', 5, clog, init, sig('interrupt', 'running', 0.0), awaiters='storm'))
+            out.append(S('hardexit', 3, clog, init, None, dur=0.01, awaiters='storm'))
+    return out
+
+
 def gen_scenarios(rng, tier: str) -> list[dict]:
     if tier == 'quick':
         scn = plain_family(rng)                                               # 20
@@ -223,6 +240,7 @@ def gen_scenarios(rng, tier: str) -> list[dict]:
         scn += race_family(rng, [-0.01, 0.0, 0.004, 0.01])                    # 12
         scn += logging_family(rng, 4)                                         # 5
         scn += linger_family(rng, 2)                                          # 2
+        scn += storm_family(rng)                                              # 3: return, raise, killed
     else:
         scn = plain_family(rng, reps=3)                                       # 60
         scn += exc_family(rng, hangs=True) + exc_family(rng, hangs=False)     # 84
@@ -231,6 +249,7 @@ def gen_scenarios(rng, tier: str) -> list[dict]:
         scn += race_family(rng, [(-0.02 + i * 0.0015) for i in range(0, 60)]) # 180
         scn += logging_family(rng, 120)                                       # 160
         scn += linger_family(rng, 8)
+        scn += storm_family(rng, reps=8)                                      # 40
     return scn
 
 
@@ -294,6 +313,15 @@ def worker_logs(scn: dict) -> bool:
     return bool(sp.get('log')) or sp.get('outcome') == 'logloop'
 
 
+def awaiters_ok(o: dict) -> bool:
+    a = o.get('awaiters')
+    if not a:
+        return True
+    first = [o.get('returned'), o.get('raised_type'), True]
+    return a.get('n_raised', 0) == 0 and a.get('times_bad', 0) == 0 and not a.get('storm_error') and \
+        all(k == first for k in a.get('outcomes', []))
+
+
 def obs_term(o: dict, scn=None) -> str:
     start_ok = o.get('start_raised') is None and 'pid' in o
     hang = 0 if not o.get('hang') else HANG_CODE.get(o.get('hang_stage'), 3)
@@ -309,6 +337,7 @@ def obs_term(o: dict, scn=None) -> str:
         cbool(bool(o.get('times_present')) and bool(o.get('times_ordered'))),
         cnat(min(len(o.get('tasks_left') or []), 50)),
         cbool(bool(o.get('listener_seen'))),
+        cbool(awaiters_ok(o)),
         cz(hang),
     ]) + ')')
 
@@ -403,6 +432,20 @@ def oracle(scn: dict, o: dict) -> list[tuple[str, str]]:
         alive_by_construction = s['when'] == 'boot' or (s['when'] == 'running' and out in ('block', 'logloop'))
         if o.get('sig_call') != 'ok' and alive_by_construction and not o.get('awaited_done_at_signal'):
             bad.append((f'request-raised:{s["how"]}', f'{s["how"]}() raised {o.get("sig_call")} while the worker process was alive'))
+    a = o.get('awaiters')
+    if a:
+        if a.get('n_raised'):
+            idx, phase, err = a['raised'][0]
+            bad.append(('await-raised:late-awaiter', f'{a["n_raised"]} of {a["n"]} further awaiters of the same handle raised; first: awaiter #{idx} '
+                                                     f'(started {phase}) raised {err}; awaiters by phase: {a.get("phases")}'))
+        first = [o.get('returned'), o.get('raised_type'), True]
+        diff = [k for k in a.get('outcomes', []) if k != first]
+        if diff:
+            bad.append(('awaiters-disagree', f'the first awaiter got (returned, raised, same process) = {first}, another awaiter got {diff[0]}'))
+        if a.get('times_bad'):
+            bad.append(('times-unordered:late-awaiter', f'{a["times_bad"]} further awaiter(s) got missing or unordered creation/exit times'))
+        if a.get('storm_error'):
+            bad.append(('awaiters-never-finish', f'the further awaiters did not all finish: {a["storm_error"]}'))
     if not o.get('times_present'):
         bad.append(('times-missing', 'creation/exit time missing'))
     elif not o.get('times_ordered'):
